@@ -46,6 +46,7 @@ fn main() {
                 let seed: u64 = args[2].parse().unwrap_or(1);
                 let start: u64 = args[3].parse().unwrap_or(0);
                 let count: u64 = args[4].parse().unwrap_or(1);
+                types::LIGHT.store(true, std::sync::atomic::Ordering::Relaxed);
                 let mut acc = orch::Acc::default();
                 let mut code = 0;
                 for idx in start..start + count {
